@@ -18,6 +18,7 @@ CONSTANTS
   EndForms <- Set02
   LabelStmts = FALSE
   Contains = TRUE
+  Randomised = FALSE
 INVARIANT WellNested
 INVARIANT LabelsUnique
 INVARIANT Needs08Sound
